@@ -220,15 +220,69 @@ def check_nano(case):
             dict(n="S", k="Source", a=dict(vo=Vq, rs=0.0), p=[], g="", r=""),
             dict(n="X", k="PSwitch", a=dict(rs=0.0, ig=t), p=["S"], g="", r=""),
             dict(n="L", k="ILoad", a=dict(ii=Iq), p=["X"], g="", r="")])
-        df, _ = quiet_call(build(spec).solve)
+        s_ = build(spec)
+        if case.get("reload"):   # the table survives save() / from_file() digit for digit
+            import os
+            from ..common import workdir
+            from sysloss.system import System
+            pth = os.path.join(workdir("c10"), "n.json")
+            s_.save(pth)
+            s_, _ = quiet_call(System.from_file, pth)
+        df, _ = quiet_call(s_.solve)
         r = observe(df)[("", "X")]
         res.stats["evaluations"] += 1
         val = g(r, "Loss (W)") / abs(Vq)
         kind, e = expectation(t, "ig", Iq, abs(Vq))
-        if abs(val - e) > 0.05 * e + 2e-11:
+        if abs(val - e) > (0.05 * e + 2e-11 if not case.get("reload") else 1e-6 * e):
             res.v(("C10.nano-table",), "table %r io=%r: Loss/|Vin| = %r, tabulated %r" % (t["ig"], Iq, val, e))
     res.nontrivial = 1
     res.classes.add("nano")
+    return res
+
+
+def check_arrayform(case):
+    """the table handed over as numpy arrays: same values as the list form, and the component keeps the values it was GIVEN -- editing the
+    arrays afterwards does not move a parameter that was supplied earlier."""
+    import numpy as np, copy
+    res = Res()
+    carrier, table = case["carrier"], case["table"]
+    z = zkey(carrier)
+    for dt in (float, np.float32 if False else float):
+        arr = {"vi": np.array(table["vi"], dtype=float), "io": np.array(table["io"], dtype=float), z: np.array(table[z], dtype=float)}
+        for Vq, Iq in case["queries"]:
+            want, _ = probe(carrier, copy.deepcopy(table), Vq, Iq)
+            pol = 1 if Vq > 0 else -1
+            c = carrier_comp(carrier, arr, pol)
+            spec = dict(name="p", phases=None, comps=[
+                dict(n="S", k="Source", a=dict(vo=Vq, rs=0.0), p=[], g="", r=""),
+                dict(n="X", k=c["k"], a=c["a"], p=["S"], g="", r=""),
+                dict(n="L", k="ILoad", a=dict(ii=Iq), p=["X"], g="", r="")])
+            from ..sysmodel import KINDS
+            from sysloss.system import System
+            from sysloss.components import Source, ILoad
+            try:
+                comp = KINDS[c["k"]]("X", **c["a"])          # no copy on our side: the constructor sees the caller's arrays
+                s = System("p", Source("S", vo=Vq, rs=0.0))
+                s.add_comp("S", comp=comp)
+                s.add_comp("X", comp=ILoad("L", ii=Iq))
+                v1 = readback(carrier, observe(quiet_call(s.solve)[0])[("", "X")])
+                keep = {k_: v_.copy() for k_, v_ in arr.items()}
+                arr[z] *= 0.5                                 # the caller goes on to derive a variant from his arrays
+                arr["io"] *= 2.0
+                v2 = readback(carrier, observe(quiet_call(s.solve)[0])[("", "X")])
+                for k_ in arr:
+                    arr[k_][...] = keep[k_]
+            except Exception as e:
+                res.v(("C10.array-form-raises", carrier, type(e).__name__), str(e)[:200])
+                return res
+            res.stats["evaluations"] += 3
+            tol = 1e-7 * max(abs(v) for row in table[z] for v in row) + (1e-9 if z != "ig" else 2e-8)
+            if want is None or abs(v1 - want) > tol:
+                res.v(("C10.array-form-differs", carrier), "io=%r vi=%r: arrays give %r, lists %r" % (Iq, Vq, v1, want))
+            if abs(v2 - v1) > tol:
+                res.v(("C10.table-follows-caller-array", carrier), "io=%r vi=%r: %r before, %r after the caller edited the arrays he had passed in" % (Iq, Vq, v1, v2))
+    res.nontrivial = 1
+    res.classes.add("arrayform")
     return res
 
 
@@ -272,6 +326,8 @@ def check_case(case):
         return check_muxtable(case)
     if case.get("fam") == "nano":
         return check_nano(case)
+    if case.get("fam") == "arrayform":
+        return check_arrayform(case)
     res = Res()
     carrier, table = case["carrier"], case["table"]
     z = zkey(carrier)
@@ -336,6 +392,14 @@ def gen_cases(tier):
     yield from gen_pairs(tier)
     for tv in ([2e-9, 6e-9, 11e-9], [9e-9, 3e-9, 1e-9], [5e-9, 5e-9, 5.5e-9]):
         yield dict(fam="nano", table={"vi": [5.0], "io": [0.01, 0.1, 0.5], "ig": [tv]}, queries=[[5.0, 0.01], [5.0, 0.1], [5.0, 0.3], [5.0, 0.5], [-5.0, 0.1], [5.0, 2.0]])
+    for tv in ([3.194e-8, 6.17e-8, 1.2345e-9], [2.00000017e-7, 4.4649829743e-7, 9.87654321e-10]):   # the grid-point values of a reloaded system
+        yield dict(fam="nano", reload=True, table={"vi": [5.0], "io": [0.01, 0.1, 0.5], "ig": [tv]}, queries=[[5.0, 0.01], [5.0, 0.1], [5.0, 0.5]])
+    for carrier in CARRIERS[:7]:
+        z_ = zkey(carrier)
+        v_ = VALS[z_]
+        # 1-D tables only: the constructors concatenate the axes of a 2-D table as LISTS, numpy arrays are not an accepted form there
+        for t in ({"vi": [3.3], "io": [0.1, 0.4, 1.0], z_: [[v_[0], v_[2], v_[1]]]}, {"vi": [5.0], "io": [0.05, 0.2], z_: [[v_[1], v_[0]]]}):
+            yield dict(fam="arrayform", carrier=carrier, table=t, queries=[[3.3, 0.4], [5.0, 0.25], [-3.3, 0.7], [4.0, 0.2]])
     vals = VALS["ig"]
     for io, vi in (([0.0, 0.2, 0.9], [2.5, 5.0]), ([0.1, 0.5], [1.0, 3.3, 12.0])):
         for k in range(3):
